@@ -96,6 +96,12 @@ func init() {
 		symPkg + "IteI": func(fr *frame, args []value) value {
 			return iteValue(toTerm(args[0]), args[1], args[2])
 		},
+		symPkg + "IteI64": func(fr *frame, args []value) value {
+			return iteValue(toTerm(args[0]), args[1], args[2])
+		},
+		symPkg + "BoolToI64": func(fr *frame, args []value) value {
+			return iteValue(toTerm(args[0]), int64(1), int64(0))
+		},
 		symPkg + "IteB": func(fr *frame, args []value) value {
 			return iteValue(toTerm(args[0]), args[1], args[2])
 		},
